@@ -82,6 +82,7 @@ pub struct Worker {
     env: Arc<WorkerEnv>,
     out: std::fs::File,
     refs: BTreeMap<u64, (Obs, World)>,
+    dbgrefs: BTreeMap<u64, ((u64, u32, String), World)>,
     src: SrcLines,
     sent: BTreeMap<String, u32>,
     wall: Duration,
@@ -98,6 +99,7 @@ impl Worker {
             env: Arc::new(WorkerEnv { dir }),
             out,
             refs: BTreeMap::new(),
+            dbgrefs: BTreeMap::new(),
             src: SrcLines::new(),
             sent: BTreeMap::new(),
             wall: Duration::from_secs(WALL_SEARCH_S),
@@ -259,10 +261,42 @@ impl Worker {
         (obs, w)
     }
 
+    /// reference Debug/Trace log text of a request at a log level above Info: canonical solo world run at
+    /// that level (digest, records, head)
+    fn dbg_reference(&mut self, job: &JobSpec, level: u8) -> ((u64, u32, String), World) {
+        let key = mix(job.key(), 0xdb6 + level as u64);
+        if let Some(x) = self.dbgrefs.get(&key) {
+            return x.clone();
+        }
+        let mut cj = job.clone();
+        cj.reader = crate::simio::StreamSpec::canonical();
+        cj.writer = crate::simio::StreamSpec::canonical();
+        cj.label = format!("reference at log level {}: {}", level, job.label);
+        let mut w = World::solo("C05", cj);
+        w.log_level = level;
+        let r = self.run(&format!("dbgref:{:016x}", key), &w);
+        let d = r.jobs[0].as_ref().unwrap().dbg.clone();
+        if self.dbgrefs.len() > 2000 {
+            self.dbgrefs.clear();
+        }
+        self.dbgrefs.insert(key, (d.clone(), w.clone()));
+        (d, w)
+    }
+
     fn check_c05_world(&mut self, tag: &str, w: &World, r: &WorldResult, rm: &mut RMsg) {
         for (ji, jr) in r.jobs.iter().enumerate() {
             let Some(jr) = jr else { continue };
             let js = &w.jobs[ji];
+            if w.log_level > 3 && !jr.rlog.error_fired && !jr.wlog.error_fired {
+                // what RUST_LOG=debug|trace shows is a diagnostic too
+                bump(&mut rm.stats, "probe.debug_log_compared", 1);
+                let (d, dw) = self.dbg_reference(js, w.log_level);
+                if let Some(v) = oracle::check_debug_log(&d, &jr.dbg) {
+                    let label = js.label.clone();
+                    self.report(tag, "C05", v, vec![dw, w.clone()], &label, js.key(), rm);
+                    bump(&mut rm.stats, "violations", 1);
+                }
+            }
             let (refobs, refworld) = self.reference(js, (tag, ji), rm);
             // condition hash: everything that may legitimately differ between two observations
             let t = w.threads.iter().position(|t| t.jobs.contains(&ji)).unwrap_or(0);
@@ -482,6 +516,28 @@ impl Worker {
                     for (wi, ji, jr) in &all {
                         if let Some(reference) = refs.get(&jr.key) {
                             if let Some(v) = oracle::check_c05(reference, jr) {
+                                let label = worlds[*wi].jobs[*ji].label.clone();
+                                self.sent.clear();
+                                self.report(&format!("w:{}", wi), "C05", v, worlds.clone(), &label, jr.key, &mut rm);
+                                bump(&mut rm.stats, "violations", 1);
+                            }
+                        }
+                    }
+                    // Debug/Trace log text: same grouping, per log level
+                    let mut drefs: BTreeMap<(u64, u8), (u64, u32, String)> = BTreeMap::new();
+                    for (wi, ji, jr) in &all {
+                        let (js, lv) = (&worlds[*wi].jobs[*ji], worlds[*wi].log_level);
+                        if lv > 3 && js.reader.benign() && js.writer.benign() && !drefs.contains_key(&(jr.key, lv)) {
+                            drefs.insert((jr.key, lv), jr.dbg.clone());
+                        }
+                    }
+                    for (wi, ji, jr) in &all {
+                        let lv = worlds[*wi].log_level;
+                        if jr.rlog.error_fired || jr.wlog.error_fired {
+                            continue;
+                        }
+                        if let Some(reference) = drefs.get(&(jr.key, lv)) {
+                            if let Some(v) = oracle::check_debug_log(reference, &jr.dbg) {
                                 let label = worlds[*wi].jobs[*ji].label.clone();
                                 self.sent.clear();
                                 self.report(&format!("w:{}", wi), "C05", v, worlds.clone(), &label, jr.key, &mut rm);
